@@ -1372,7 +1372,12 @@ class FlipMVD(ADEVPrimitive):
         b_dual = kdual(Dual(b, _discrete_zero_tangent(b)))
         (b_primal,), (b_tangent,) = Dual.tree_unzip(b_dual)
 
-        other = _first_leaf(kpure(jnp.logical_not(b)))
+        # Evaluate the phantom outcome with the dual continuation too (as the
+        # lane-wise estimator does): the pure continuation re-binds the staged
+        # downstream sites, which replay one trace-time draw when unseeded.
+        not_b = jnp.logical_not(b)
+        other_dual = kdual(Dual(not_b, _discrete_zero_tangent(not_b)))
+        (other,), _ = Dual.tree_unzip(other_dual)
 
         sign = jnp.where(
             b,
